@@ -245,6 +245,12 @@ type Sim struct {
 	stash  []stashed
 	// SysLog: every Accept / Stop the pump executed, in global order (pump_sys.go: the system model runs on it)
 	SysLog []sysRec
+	// Wire: delivery mode "wire": every envelope crosses the wire format before Accept, as with a real transport: the sender's
+	// Message.MarshalBinary, the bytes, UnmarshalBinary into a fresh Message at the recipient. The model event and the system
+	// log record the message as it was SENT. WireFail counts the envelopes that do not survive the wire format (delivered
+	// in memory instead, and listed in Trace).
+	Wire     bool
+	WireFail int
 }
 
 type stashed struct {
@@ -572,12 +578,44 @@ func (s *Sim) Deliver(e *Env) Obs {
 		s.det.setParty(string(n.Label))
 	}
 	n.Events = append(n.Events, sx.List(sx.Int(0), s.msgSxP(e.Msg, e.Valid, e.Panics)))
-	msgs, pan, hung := s.call(n, func() { n.H.Accept(e.Msg) })
+	arg := e.Msg
+	if s.Wire {
+		if w, err := wireCopy(e.Msg); err == nil {
+			arg = w
+		} else {
+			s.WireFail++
+			s.Trace = append(s.Trace, fmt.Sprintf("wire: envelope %d (%s -> %s, round %d) does not cross the wire format: %v", e.Seq, e.Msg.From, e.To, e.Msg.RoundNumber, err))
+		}
+	}
+	msgs, pan, hung := s.call(n, func() { n.H.Accept(arg) })
 	o := s.observe(n, msgs, pan, 0, hung)
 	n.Obs = append(n.Obs, o)
 	s.SysLog = append(s.SysLog, sysRec{Kind: 0, To: e.To, Msg: e.Msg, Valid: e.Valid, Panics: e.Panics, Tag: e.Tag, ObsIdx: len(n.Obs) - 1})
 	s.enqueue(n, msgs)
 	return o
+}
+
+// wireCopy sends m across the wire format: MarshalBinary, a private copy of the bytes (what a socket hands over), UnmarshalBinary
+// into a fresh Message.
+func wireCopy(m *protocol.Message) (w *protocol.Message, err error) {
+	defer func() {
+		if r := recover(); r != nil {
+			w, err = nil, fmt.Errorf("PANIC: %v", r)
+		}
+	}()
+	if m == nil {
+		return nil, fmt.Errorf("nil message")
+	}
+	b, err := m.MarshalBinary()
+	if err != nil {
+		return nil, err
+	}
+	b = append([]byte(nil), b...)
+	w = new(protocol.Message)
+	if err = w.UnmarshalBinary(b); err != nil {
+		return nil, err
+	}
+	return w, nil
 }
 
 func (s *Sim) CanAccept(id party.ID, m *protocol.Message, valid bool) bool {
